@@ -88,6 +88,21 @@ std::vector<Fail> check_projections(V&& v, MView const& m, Elem* data, idx N) {
 			if(m.d[0].size >= 2) { if(!all_values(tv.sliced(m.d[0].first + 1, m.d[0].first + m.d[0].size), after(m, mk(SLICED, m.d[0].first + 1, m.d[0].first + m.d[0].size)), [&](idx off) { return 3*data[off] + 1; }, why)) { F("element_transformed(f).sliced(a,b)"); } }
 			if constexpr(R >= 2) { if(!all_values(tv[m.d[0].first + m.d[0].size - 1], after(m, mk(INDEX, m.d[0].first + m.d[0].size - 1)), [&](idx off) { return 3*data[off] + 1; }, why)) { F("element_transformed(f)[i]"); }
 			                       if(!all_values(tv.transposed(), after(m, mk(TRANSPOSED)), [&](idx off) { return 3*data[off] + 1; }, why)) { F("element_transformed(f).transposed()"); } }
+			// iteration over the projection in BOTH directions and by jumps (the projecting pointer type has its own ++/--/+=/-=): elements() range and, for 1-D views, begin()/end()
+			{
+				std::vector<int> want; for_each_index(m, [&](std::vector<idx> const&, idx off) { want.push_back(3*data[off] + 1); });
+				idx const N = static_cast<idx>(want.size()); bool ok = true;
+				auto walk_both = [&](auto b, auto e, char const* what) {
+					if(e - b != N) { ok = false; why = std::string(what) + ": end-begin"; return; }
+					{ auto it = b; for(idx k = 0; k < N && ok; ++k, ++it) { ++g_checks; if(*it != want[static_cast<std::size_t>(k)]) { ok = false; why = std::string(what) + ": forward ++ at " + std::to_string(k); } } }
+					{ auto it = e; for(idx k = N; k-- > 0 && ok;) { --it; ++g_checks; if(*it != want[static_cast<std::size_t>(k)]) { ok = false; why = std::string(what) + ": backward -- at " + std::to_string(k); } } }
+					for(idx k = 0; k < N && ok; ++k) { ++g_checks; if(*(e - (N - k)) != want[static_cast<std::size_t>(k)]) { ok = false; why = std::string(what) + ": end-(n-k) at " + std::to_string(k); } auto it = e; it -= (N - k); if(ok && *it != want[static_cast<std::size_t>(k)]) { ok = false; why = std::string(what) + ": -= at " + std::to_string(k); } if(ok && *(b + k) != want[static_cast<std::size_t>(k)]) { ok = false; why = std::string(what) + ": begin+k at " + std::to_string(k); } }
+					if(ok && N > 0) { auto rb = std::make_reverse_iterator(e); for(idx k = N; k-- > 0 && ok; ++rb) { ++g_checks; if(*rb != want[static_cast<std::size_t>(k)]) { ok = false; why = std::string(what) + ": reverse_iterator at " + std::to_string(k); } } }
+				};
+				{ auto&& er = tv.elements(); walk_both(er.begin(), er.end(), "elements() of the projection"); }
+				if constexpr(R == 1) { if(ok) { walk_both(tv.begin(), tv.end(), "begin()/end() of the 1-D projection"); } }
+				if(!ok) { F("element_transformed(f): iteration"); }
+			}
 			// array from the projection
 			multi::array<int, R> c(tv);
 			if(!all_values(c, [&] { MView z = m; z.base = 0; return z; }(), [&](idx) { return 0; }, why) && false) {}
